@@ -1,5 +1,6 @@
 import FV.Props.Catalog
 import FV.EmplaceAll
+import FV.EmplaceFlexContent
 import FV.Spec.Serialize
 /-! # C03 — emplace, then read back
 
@@ -9,33 +10,44 @@ one image per sized field, a variant index that exists) and that the byte images
 valid values of their types; everything a `…Init`, `flat_vec!`, `FromIterator`, `FromStr` or `Empty` can express is
 an `Init`.
 
-`C03_statement` below is the whole property in the model's terms. The theorem proved here for **every** well-formed
-type and well-typed initialiser is its validation clause (`C03_emplace_validates_partial`): no fault, slot length
-kept, and on `Ok` the bytes validate. The other two clauses (the deep read equals the specified content; the
-non-padding bytes equal the reference serialisation) are decided on every run by the correspondence check, which
-compares the implementation with `Ty.walk`, `specOf` and `serialize` for every emplacer of every catalog type. -/
+`C03_statement` below is the whole property in the model's terms: (1) the bytes validate, (2) the deep read through the
+accessors (`Dict.walk`) is the content the initialiser specifies (`specV`, defined without any layout: sized values are read from
+their own image), (3) for alignment-1 (portable) types the image is the reference serialisation. `C03_emplace_reads_back` proves
+(1) and (2) for **every** well-formed type and well-typed initialiser. Clause (3) is decided on every run by the correspondence
+check (`ser=`), with the padding-freedom theorems of C17. -/
 namespace FV.Props
 open FV
 
-/-- **C03, in full.** (Stated, not proved in full: see the module comment.) -/
+/-- **C03, in full.** (Clauses 1 and 2 are `C03_emplace_reads_back`; clause 3 is not proved in Lean.) -/
 def C03_statement : Prop :=
   ∀ (t : Ty) (i : Init) (s : Slice), t.WF → InitWT t i → s.addr % t.dict.align = 0 → t.dict.minSize ≤ s.len →
     ∃ o, emplaceU t i s = .ok o ∧
       (o.res = .ok () →
         t.dict.validate ⟨s.addr, o.bytes⟩ = .ok () ∧
-        ((t.walk ⟨s.addr, o.bytes⟩).bind fun w => .ok (stripCaps w)) = specOf t i ∧
+        (t.dict.walk ⟨s.addr, o.bytes⟩).map Val.strip = specV t i ∧
         (t.align1 = true → ∀ b, serialize t i = some b → o.bytes.take b.length = b))
 
-/-- **C03, validation clause, for every type and every initialiser.** Into any aligned slot of at least `MIN_SIZE`
-bytes, whatever it held before: the emplacer does not fault, keeps the slot length, and if it reports `Ok` the bytes
-pass the *checked* validation of the type. -/
+/-- **C03, clauses 1 and 2, for every type and every initialiser.** Into any aligned slot of at least `MIN_SIZE` bytes, whatever
+it held before: the emplacer does not fault, keeps the slot length, and if it reports `Ok` the bytes pass the *checked*
+validation of the type **and read back as exactly the content that was specified** — at every nesting depth: sized images,
+`flat_vec!` / `FromIterator` elements in order, string bytes, FlexVec items in order, struct fields, the chosen enum variant. -/
+theorem C03_emplace_reads_back (t : Ty) (h : t.WF) (i : Init) (hw : InitWT t i) (s : Slice)
+    (hal : s.addr % t.dict.align = 0) (hlen : t.dict.minSize ≤ s.len) :
+    ∃ o, emplaceU t i s = .ok o ∧ o.bytes.length = s.len ∧
+      (o.res = .ok () → t.dict.validate ⟨s.addr, o.bytes⟩ = .ok () ∧
+        ∃ c, specV t i = .ok c ∧ (t.dict.walk ⟨s.addr, o.bytes⟩).map Val.strip = .ok c) := by
+  obtain ⟨o, ho, hok, hc⟩ := emplaceU_content i t h hw s hal hlen
+  refine ⟨o, ho, hok.len, fun hres => ⟨?_, ?_⟩⟩
+  · exact validate_ok_iff.2 ⟨hal, by simp only [Slice.len, hok.len]; exact hlen, hok.valid hres⟩
+  · exact spec_ok_of_content t h i s o hal hlen hok hc hres
+
+/-- the validation clause alone (kept under its earlier name) -/
 theorem C03_emplace_validates_partial (t : Ty) (h : t.WF) (i : Init) (hw : InitWT t i) (s : Slice)
     (hal : s.addr % t.dict.align = 0) (hlen : t.dict.minSize ≤ s.len) :
     ∃ o, emplaceU t i s = .ok o ∧ o.bytes.length = s.len ∧
       (o.res = .ok () → t.dict.validate ⟨s.addr, o.bytes⟩ = .ok ()) := by
-  obtain ⟨o, ho, hok⟩ := emplaceU_ok i t h hw s hal hlen
-  refine ⟨o, ho, hok.len, fun hres => ?_⟩
-  exact validate_ok_iff.2 ⟨hal, by simp only [Slice.len, hok.len]; exact hlen, hok.valid hres⟩
+  obtain ⟨o, h1, h2, h3⟩ := C03_emplace_reads_back t h i hw s hal hlen
+  exact ⟨o, h1, h2, fun hres => (h3 hres).1⟩
 
 /-- non-vacuity: a nested initialiser (`E1::C { a: 7, b: flat_vec![1, 2] }`) is well typed … -/
 example : InitWT E1 (.uenum 2 [[7]] (some (.vecArr [[1], [2]]))) := by
@@ -55,6 +67,10 @@ example : InitWT E1 (.uenum 2 [[7]] (some (.vecArr [[1], [2]]))) := by
 /-- … and the model computes the documented image for it (tag 2, `a`, pad, length 2, the two items) -/
 example : emplaceU E1 (.uenum 2 [[7]] (some (.vecArr [[1], [2]]))) ⟨0, [9,9,9,9,9,9,9,9,9,9,9,9]⟩ =
     .ok ⟨[2,9,9,9,7,9,2,0,1,2,9,9], .ok ()⟩ := by decide +kernel
+
+/-- … which reads back as variant 2 with field `7` and the vector `[1, 2]`, exactly what the initialiser specifies -/
+example : (E1.dict.walk ⟨0, [2,9,9,9,7,9,2,0,1,2,9,9]⟩).map Val.strip = .ok (.tag 2 [.raw [7], .vec 0 [.raw [1], .raw [2]]]) ∧
+    specV E1 (.uenum 2 [[7]] (some (.vecArr [[1], [2]]))) = .ok (.tag 2 [.raw [7], .vec 0 [.raw [1], .raw [2]]]) := ⟨rfl, rfl⟩
 
 /-- `FlatVec` filled from an iterator: the result validates even when not all items fitted -/
 theorem C03_vec_from_iterator (et : Ty) (hL : Law et.dict) (sz : Nat) (hsz : et.dict.sized = some sz)
